@@ -483,7 +483,10 @@ func checkC08(e *Engine, r *Report) {
 					continue // not the idle-unit idiom (e.g. per-thread picking by membership)
 				}
 				// the predicate must not accept a unit without the check: every `return true`-capable exit is dominated by the Equals… (the idiom returns the conjunction itself)
-				cp := &canonizer{e: e, seen: map[ssa.Value]bool{}, unit: func(v ssa.Value) bool { p, ok := v.(*ssa.Parameter); return ok && p.Parent() == pred && len(pred.Params) > 0 && p == pred.Params[0] }}
+				cp := &canonizer{e: e, seen: map[ssa.Value]bool{}, unit: func(v ssa.Value) bool {
+					p, ok := v.(*ssa.Parameter)
+					return ok && p.Parent() == pred && len(pred.Params) > 0 && p == pred.Params[0]
+				}}
 				S := cp.set(checked)
 				// units in the parent: elements of the picked slice
 				pickedCell := func(v ssa.Value) bool {
